@@ -119,6 +119,24 @@ func genC20(t *rapid.T) any {
 	}
 	c.HashDir = rapid.IntRange(0, 2).Draw(t, "hashdir") == 0
 	c.Frag = rapid.SampledFrom([]int{0, 0, 3, 8}).Draw(t, "frag")
+	if bs == 1024 && fstype == "ext4" && rapid.IntRange(0, 3).Draw(t, "deepHtree") == 0 {
+		// a directory whose hash tree needs a second level: with 1 KiB blocks the root holds about 120 leaf
+		// pointers, and e2fsck -fyD packs interior nodes completely full
+		dn := "deep-hash-tree"
+		if !used[dn] {
+			c.Tree = append(c.Tree, mk.Entry{Path: dn, Kind: mk.KDir})
+			nf := rapid.SampledFrom([]int{560, 640, 900}).Draw(t, "deepN")
+			nl := rapid.SampledFrom([]int{150, 200, 230}).Draw(t, "deepNameLen")
+			for i := 0; i < nf; i++ {
+				c.Tree = append(c.Tree, mk.Entry{Path: fmt.Sprintf("%s/%05d-%s", dn, i, strings.Repeat("h", nl)), Kind: mk.KFile, Data: mk.Content{Seed: uint32(5000 + i), Len: i % 3}})
+			}
+			c.HashDir = true
+			c.Frag = 0
+			if c.SizeKiB < 32<<10 {
+				c.SizeKiB = 32 << 10
+			}
+		}
+	}
 	return c
 }
 
@@ -432,6 +450,41 @@ func execC20(ci any) (r hx.Result) {
 		}
 		if !bytes.Equal(data, wd) {
 			r.Fail("sparse-content", "sparse file %q (%d bytes, %d segments): content differs, holes must read as zeros (%s) [%s]", sf.Path, sf.Size, len(sf.Segs), diffAt(data, wd), feats)
+			return
+		}
+		// the same file through a Read loop that reuses one buffer, as io.Copy does: what a hole delivers must be
+		// zeros the handle wrote, not whatever the caller's buffer held before
+		var loop []byte
+		err, ok = check("read sparse (reused buffer) "+sf.Path, func() error {
+			f, err := fsys.Open(sf.Path)
+			if err != nil {
+				return err
+			}
+			defer f.Close()
+			buf := make([]byte, 3000)
+			for int64(len(loop)) <= sf.Size+1<<20 {
+				for i := range buf {
+					buf[i] = 0xAA
+				}
+				n, rerr := f.Read(buf)
+				loop = append(loop, buf[:n]...)
+				if rerr == io.EOF {
+					return nil
+				}
+				if rerr != nil {
+					return rerr
+				}
+				if n == 0 {
+					return fmt.Errorf("Read returned (0, nil)")
+				}
+			}
+			return nil
+		})
+		if !ok {
+			return
+		}
+		if err == nil && !bytes.Equal(loop, wd) {
+			r.Fail("sparse-content", "sparse file %q (%d bytes, %d segments) read in 3000-byte pieces into a reused buffer: content differs, holes must read as zeros (%s) [%s]", sf.Path, sf.Size, len(sf.Segs), diffAt(loop, wd), feats)
 			return
 		}
 	}
